@@ -312,7 +312,7 @@ func (s *Scanner) skipQuote(quote rune) error {
 	var (
 		pos     = s.pos
 		// Backslash is not an escape character in back-quoted identifiers.
-		escaped = s.BackslashEscapes && quote != '`' || s.EscapedStringExt && s.pos > 0 && (s.input[s.pos-1] == 'E' || s.input[s.pos-1] == 'e')
+		escaped = s.BackslashEscapes && quote != '`' || s.EscapedStringExt && s.pos > 1 && (s.input[s.pos-2] == 'E' || s.input[s.pos-2] == 'e')
 	)
 	for {
 		switch r := s.next(); {
